@@ -69,6 +69,37 @@ class Balance(Rule):
             self.violations.append(('exit', b.blocks[bi]['term']['loc']))
 
 
+def _is_clone_output_place(b, pl):
+    base = b.base_of_place(pl)
+    return bool(base) and any(x[0] == CLONE_OUT for x in base[1])
+
+
+class WriteOwed(Rule):
+    """The converse for the seed/archive feed: a location taken out of the clone index (`remove` returned Some) is written -
+    the function is not left with success before the loop over that location's offsets was entered.  (A chunk that is taken
+    out and then skipped - "nothing to write for a block of zeros" - is never asked for again: a hole with whatever the output
+    held there.)"""
+    def __init__(self, b, T, idx_f, some_edges, heads):
+        self.b, self.T, self.idx_f = b, T, idx_f
+        self.some_edges = some_edges        # switch block -> target taken when the removed location is Some
+        self.heads = heads                  # blocks whose terminator fetches the next offset of a removed location
+        self.init = 'none'
+        self.violations = []
+        self.entered = 0
+
+    def on_term(self, b, bi, t, st):
+        if bi in self.some_edges and t['k'] == 'switch':
+            return [(s2, 'credit' if s2 == self.some_edges[bi] else 'none') for s2 in set(succs(t))]
+        if bi in self.heads and st == 'credit':
+            self.entered += 1
+            return 'none'
+        return st
+
+    def on_exit(self, b, bi, st, outcome):
+        if outcome in OK_OUTCOMES and st == 'credit':
+            self.violations.append(b.blocks[bi]['term']['loc'])
+
+
 def run(facts, cg):
     T = Terms(facts)
     instances, findings = [], []
@@ -95,8 +126,132 @@ def run(facts, cg):
         instances.append({'rule': 'R-REMOVE-ON-WRITE', 'function': b.q, 'write_sites': r.writes, 'remove_sites': r.removes})
         for kind, loc in r.violations:
             finding('R-REMOVE-ON-WRITE', b.q, kind, 'a chunk is written to the output without being removed from the clone index (%s at %s)' % (kind, loc))
+    # the converse (feed): removed from the index => written
+    from .r_misc import _variant_edges
+    n_owed = 0
+    for b in facts.bodies.values():
+        if not b.id.startswith('bitar::clone_output::') or b.generated or of is None or xf is None:
+            continue
+        some_edges, rm_locals = {}, []
+        for bi, t in b.calls():
+            if 'q' in t['callee'] and callee_q(t) == IDX_REMOVE and t['args'] and not t['dest']['p']:
+                base = b.base_of(t['args'][0])
+                if base and any(x[1] == xf for x in base[1]):
+                    for sbi, tgt in _variant_edges(b, t['dest']['l'], 1):
+                        some_edges[sbi] = tgt
+                    rm_locals.append(t['dest']['l'])
+        if not some_edges:
+            continue
+        heads = set()
+        for bi, t in b.calls():
+            if 'q' in t['callee'] and t['callee']['q'] == 'core::iter::traits::iterator::Iterator::next' and t['args']:
+                it = simplify(T.of_operand(b, t['args'][0]))
+                if has_call(it, 'ChunkIndex::remove'):
+                    heads.add(bi)
+        n_owed += 1
+        r = WriteOwed(b, T, xf, some_edges, heads)
+        Explorer(b, r).run()
+        # ... and every turn of that loop writes: from the Some edge of the loop head no way back to it (or out with success)
+        # without a write to the output
+        skipped = []
+        for h in heads:
+            for sbi, tgt in _variant_edges(b, b.blocks[h]['term']['dest']['l'], 1):
+                class Turn(Rule):
+                    init = False
+
+                    def on_term(self_, b_, bi, t, wrote):
+                        if bi == h:
+                            if not wrote:
+                                skipped.append(t['loc'])
+                            return []
+                        if t['k'] == 'call' and 'q' in t['callee'] and t['callee']['q'].startswith(AW + 'write') and t['args']:
+                            base = b_.base_of(t['args'][0])
+                            if base and any(x[0] == CLONE_OUT and x[1] == of for x in base[1]):
+                                return True
+                        return wrote
+
+                    def on_exit(self_, b_, bi, wrote, outcome):
+                        if outcome in OK_OUTCOMES and not wrote:
+                            skipped.append(b_.blocks[bi]['term']['loc'])
+                Explorer(b, Turn(), start=tgt).run()
+        instances.append({'rule': 'R-WRITE-ON-REMOVE', 'function': b.q, 'removed_location_dispatches': len(some_edges), 'offset_loops': len(heads),
+                          'success_exits_with_unwritten_location': len(r.violations), 'loop_turns_without_write': len(skipped)})
+        if not heads:
+            finding('R-WRITE-ON-REMOVE', b.q, 'anchor', 'a location is taken out of the clone index but no loop over its offsets is found (cannot decide)')
+        for loc in r.violations[:1]:
+            finding('R-WRITE-ON-REMOVE', b.q, 'removed-not-written', 'a chunk location is taken out of the clone index and the function can report success (%s) without '
+                    'entering the loop that writes it to its offsets: the chunk is never asked for again, the output keeps what it held there' % loc)
+        for loc in skipped[:1]:
+            finding('R-WRITE-ON-REMOVE', b.q, 'offset-skipped', 'a turn of the loop over a removed location\'s offsets can pass without a write to the output (%s)' % loc)
+    if n_owed < 1:
+        finding('R-WRITE-ON-REMOVE', '-', 'floor', 'the feed of verified chunks (remove from the clone index, then write) was not found (cannot decide)')
     if len(users) < 2:
         finding('R-REMOVE-ON-WRITE', '-', 'floor', 'expected the seed feed and the reorder executor to write the output (found %d writing functions)' % len(users))
+
+    # ---------------------------------------------------------------- R-INDEX-SHRINKS: the set of wanted chunks of an output only shrinks
+    # Once a CloneOutput exists, locations leave its index (written, found in place) and never come back: a location that is
+    # put back "because the write failed" is written a second time when the chunk arrives again.
+    n_co = 0
+    for b in facts.bodies.values():
+        if not b.id.startswith('bitar::clone_output::') or b.generated or xf is None:
+            continue
+        n_co += 1
+        for bi, t in b.calls():
+            if 'q' not in t['callee'] or not t['args']:
+                continue
+            q = callee_q(t)
+            base = b.base_of(t['args'][0])
+            on_index = bool(base) and any(x[1] == xf for x in base[1])
+            if on_index and (q == 'bitar::chunk_index::ChunkIndex::add_chunk' or q.endswith(('HashMap::insert', 'HashMap::extend', 'HashMap::entry'))):
+                finding('R-INDEX-SHRINKS', b.q, 'grows:' + q.split('::')[-1], 'the clone index of the output gets an entry back at %s: a location that was already '
+                        'written (or found in place) is wanted again and will be written a second time' % t['loc'])
+        for bi in b.live:
+            for st in b.blocks[bi]['stmts']:
+                if st['k'] == 'assign' and st['pl']['p'] and st['pl']['p'][-1]['k'] == 'field' and st['pl']['p'][-1].get('n') == xf \
+                        and b.lty(st['pl']['l']).get('k') in ('ref', 'rawptr', 'adt', None) and _is_clone_output_place(b, st['pl']):
+                    finding('R-INDEX-SHRINKS', b.q, 'replaced', 'the clone index of an existing output is replaced at %s' % st['loc'])
+    instances.append({'rule': 'R-INDEX-SHRINKS', 'bodies_checked': n_co})
+    if n_co < 3:
+        finding('R-INDEX-SHRINKS', '-', 'floor', 'the functions of CloneOutput were not found (cannot decide)')
+
+    # ---------------------------------------------------------------- R-STRIP: a chunk leaves the wanted set only when no offset of it remains
+    # strip_chunks_already_in_place rebuilds the clone index through a filter: an entry is dropped (the closure returns None)
+    # only behind the "its list of remaining offsets is empty" edge.  A shortcut that drops an entry on another test (a prefix
+    # comparison, a count) leaves wanted places unwritten - nothing asks for that chunk any more.
+    from .r_readers import _reachable_without_edge
+    n_strip = 0
+    for b in facts.bodies.values():
+        par = facts.original.get(b.raw.get('parent') or '')
+        if b.raw['kind'] != 'Closure' or par is None or par.q != STRIP or b.generated:
+            continue
+        if b.lty(0).get('adt') != 'core::option::Option':
+            continue
+        drops = [(bi, st) for bi in b.live for st in b.blocks[bi]['stmts']
+                 if st['k'] == 'assign' and not st['pl']['p'] and st['pl']['l'] == 0 and st['rv']['k'] == 'agg' and st['rv'].get('vname') == 'None']
+        if not drops:
+            continue
+        n_strip += 1
+        empties = []        # (switch block, edge target taken when the list is empty)
+        for cbi, ct in b.calls():
+            if 'q' in ct['callee'] and callee_q(ct).endswith(('Vec::is_empty', '[T]::is_empty')) and ct['t'] is not None and not ct['dest']['p']:
+                sw = b.blocks[ct['t']]['term']
+                if sw['k'] == 'switch' and sw['op']['k'] in ('copy', 'move') and sw['op']['pl']['l'] == ct['dest']['l']:
+                    empties.append((ct['t'], sw['otherwise']))
+        for bi in b.live:
+            sw = b.blocks[bi]['term']
+            if sw['k'] != 'switch':
+                continue
+            ct = simplify(T.of_operand(b, sw['op']))
+            if isinstance(ct, tuple) and ct[0] == 'binop' and ct[1] in ('Eq', 'Ne') and has_call(ct, '::len') and ('const', 0) in (ct[2], ct[3]):
+                empties.append((bi, sw['otherwise'] if ct[1] == 'Eq' else dict(zip(sw['vals'], sw['targets'])).get(0)))
+        for bi, st in drops:
+            ok = any(tg is not None and not _reachable_without_edge(b, (sbi, tg), bi) for sbi, tg in empties)
+            instances.append({'rule': 'R-STRIP', 'function': b.q, 'dropped_at': st['loc'], 'behind_empty_offsets_edge': ok})
+            if not ok:
+                finding('R-STRIP', par.q, 'dropped-with-offsets-left', 'an entry is dropped from the set of wanted chunks at %s on a path that has not found its list of '
+                        'remaining offsets empty: places that still need the chunk are never written' % st['loc'])
+    if n_strip < 1:
+        finding('R-STRIP', '-', 'floor', 'the filter that drops chunks already in place was not found (cannot decide)')
 
     # ---------------------------------------------------------------- R-STOREONCE: a chunk parked in memory is read from the output once
     # The planner emits one StoreInMem per chunk that is about to overwrite R; only the first finds R intact.  Reading R
